@@ -1,10 +1,84 @@
-"""In-tree AST mutants and benign transforms (filled in per rule)."""
+"""In-tree mutants and benign twins for the sensitivity run.
+
+Each mutant is one textual replacement in one file of a scratch copy of the tree under
+analysis (never in /repo). A mutant whose `old` text is not present in the current tree is
+skipped (reported as not applicable), so an edited tree does not break the self-test.
+`expect` is a substring of the violation key the rule must report; `silent` marks a benign
+twin on which the rule must stay quiet.
+"""
 from __future__ import annotations
 
+import os
+from typing import List
 
-def cases():
-    return []
+M = "mysensors/"
 
 
-def apply(repo, spec):
-    raise NotImplementedError(spec)
+def _m(name, prop, file, old, new, expect="", silent=False, count=1):
+    c = {"name": name, "property": prop, "mutant": {"file": M + file, "old": old, "new": new, "count": count}}
+    if silent:
+        c["silent"] = True
+    else:
+        c["expect"] = expect
+    return c
+
+
+MUTANTS: List[dict] = [
+    # ------------------------------------------------------------------ C01
+    _m("c01-drop-is_sensor-guard-battery", "C01", "handler.py",
+       "    if not msg.gateway.is_sensor(msg.node_id):\n        return None\n    msg.gateway.sensors[msg.node_id].battery_level = msg.payload",
+       "    msg.gateway.sensors[msg.node_id].battery_level = msg.payload", "KeyError"),
+    _m("c01-get-to-subscript-flush", "C01", "handler.py", "sensor.new_state.get(child.id)", "sensor.new_state[child.id]", "KeyError"),
+    _m("c01-narrow-except-logic-decode", "C01", "__init__.py", "        except ValueError as exc:\n            _LOGGER.warning(\"Not a valid message", "        except TypeError as exc:\n            _LOGGER.warning(\"Not a valid message", "ValueError"),
+    _m("c01-handler-before-validate", "C01", "__init__.py",
+       "        msg.gateway = self\n        message_type", "        self.alert(msg)\n        msg.gateway = self\n        message_type", "", silent=True),
+    _m("c01-effect-before-validate", "C01", "__init__.py",
+       "        try:\n            msg.validate(self.protocol_version)", "        self.alert(msg)\n        try:\n            msg.validate(self.protocol_version)", "C01-R3"),
+    _m("c01-validate-wrong-version", "C01", "__init__.py", "msg.validate(self.protocol_version)\n        except", "msg.validate(\"2.2\")\n        except", "C01-R3"),
+    _m("c01-internal-none-guard", "C01", "handler.py", "    handler = internal.get_handler(msg.gateway.handlers)\n    if handler is None:\n        return None\n    return handler(msg)", "    handler = internal.get_handler(msg.gateway.handlers)\n    return handler(msg)", "TypeError"),
+    _m("c01-callback-unwrapped", "C01", "__init__.py", "            try:\n                self.event_callback(msg)\n            except Exception as exception:  # pylint: disable=broad-except\n                _LOGGER.exception(exception)", "            self.event_callback(msg)", "Exception"),
+    _m("c01-mqtt-pub-narrow-except", "C01", "gateway_mqtt.py", "            self._pub_callback(topic, payload, qos, self._retain)\n        except Exception as exception:", "            self._pub_callback(topic, payload, qos, self._retain)\n        except OSError as exception:", "Exception"),
+    _m("c01-ota-popleft-unguarded", "C01", "handler.py", "    while sensor.queue:\n        job = sensor.queue.popleft()", "    while True:\n        job = sensor.queue.popleft()", "IndexError"),
+    _m("c01-stream-unknown-node", "C01", "handler.py", "    if not msg.gateway.is_sensor(msg.node_id):\n        return None\n    stream = ", "    stream = ", "", silent=True),
+    _m("c01-benign-rename-local", "C01", "handler.py", "    sensor = msg.gateway.sensors[msg.node_id]\n\n    sensor.update_child_value(", "    node = msg.gateway.sensors[msg.node_id]\n    sensor = node\n\n    sensor.update_child_value(", "", silent=True),
+    # ------------------------------------------------------------------ C02
+    _m("c02-decode-payload-first", "C02", "message.py", "self.payload = list_data.pop()", "self.payload = list_data.pop(0)", "decode: payload"),
+    _m("c02-encode-swapped-fields", "C02", "message.py", "                            int(self.ack),\n                            int(self.sub_type),", "                            int(self.sub_type),\n                            int(self.ack),", "six fields in frame order"),
+    _m("c02-encode-no-newline", "C02", "message.py", "                + \"\\n\"\n", "                + \"\"\n", "trailing newline"),
+    _m("c02-decode-other-delimiter", "C02", "message.py", "def decode(self, data, delimiter=\";\"):", "def decode(self, data, delimiter=\",\"):", "same delimiter"),
+    _m("c02-encode-failure-returns-empty", "C02", "message.py", "            _LOGGER.error(\"Error encoding message to gateway\")\n            return None", "            _LOGGER.error(\"Error encoding message to gateway\")\n            return \"\"", "returns None"),
+    _m("c02-benign-tuple-literal", "C02", "message.py",
+       "                        for f in [\n                            int(self.node_id),\n                            int(self.child_id),\n                            int(self.type),\n                            int(self.ack),\n                            int(self.sub_type),\n                            self.payload,\n                        ]",
+       "                        for f in (\n                            int(self.node_id),\n                            int(self.child_id),\n                            int(self.type),\n                            int(self.ack),\n                            int(self.sub_type),\n                            self.payload,\n                        )", "", silent=True),
+    # ------------------------------------------------------------------ C03
+    _m("c03-percent-max-99", "C03", "validation.py", "vol.Range(min=0, max=100)", "vol.Range(min=0, max=99)", "C03-R3"),
+    _m("c03-node-id-max-254", "C03", "message.py", "                max=BROADCAST_ID,\n                msg=f\"Not valid node_id", "                max=BROADCAST_ID - 1,\n                msg=f\"Not valid node_id", "C03-R4"),
+    _m("c03-child-255-any-type", "C03", "message.py", "        if self.child_id == SYSTEM_CHILD_ID:\n            valid_types", "        if self.child_id == SYSTEM_CHILD_ID and False:\n            valid_types", "C03-R4"),
+    _m("c03-stream-child-not-forced", "C03", "message.py", "if self.type in (const.MessageType.internal, const.MessageType.stream):", "if self.type in (const.MessageType.internal,):", "C03-R4"),
+    _m("c03-ack-allows-2", "C03", "message.py", "vol.In([0, 1], msg=f\"Not valid ack flag", "vol.In([0, 1, 2], msg=f\"Not valid ack flag", "C03-R4"),
+    _m("c03-rgb-length-lt", "C03", "const_15.py", "    if len(value) != 6:", "    if len(value) < 6:", "C03-R3b"),
+    _m("c03-drop-setreq-row", "C03", "const_15.py", "    SetReq.V_HVAC_SPEED: vol.In(", "    SetReq.V_HVAC_FLOW_MODE: vol.In(", "C03-R"),
+    _m("c03-id-response-zero", "C03", "const_14.py", "vol.Coerce(int), vol.Range(min=1, max=MAX_NODE_ID), vol.Coerce(str)", "vol.Coerce(int), vol.Range(min=0, max=MAX_NODE_ID), vol.Coerce(str)", "C03-R3"),
+    _m("c03-renumber-member", "C03", "const_22.py", "I_POST_SLEEP_NOTIFICATION = 33", "I_POST_SLEEP_NOTIFICATION = 34", "C03-R"),
+    _m("c03-payload-lookup-by-type-only", "C03", "message.py", "const.VALID_PAYLOADS.get(self.type, {}).get(self.sub_type, \"\")", "const.VALID_PAYLOADS.get(self.type, {}).get(self.sub_type, str)", "C03-R4"),
+    _m("c03-benign-in-tuple", "C03", "message.py", "vol.In([0, 1], msg=f\"Not valid ack flag", "vol.In((0, 1), msg=f\"Not valid ack flag", "", silent=True),
+    _m("c03-benign-msg-text", "C03", "validation.py", "percent_int = vol.All(vol.Coerce(int), vol.Range(min=0, max=100))", "percent_int = vol.All(vol.Coerce(int), vol.Range(min=0, max=100, msg=\"percent\"))", "", silent=True),
+]
+
+
+def cases() -> List[dict]:
+    return [dict(c) for c in MUTANTS]
+
+
+def apply(repo: str, spec: dict) -> None:
+    path = os.path.join(repo, spec["file"])
+    with open(path, encoding="utf-8") as fh:
+        src = fh.read()
+    if spec["old"] not in src:
+        raise LookupError(f"mutant not applicable: text not found in {spec['file']}")
+    n = spec.get("count", 1)
+    new = src.replace(spec["old"], spec["new"]) if n == 0 else src.replace(spec["old"], spec["new"], n)
+    if new == src:
+        raise LookupError("mutant is a no-op")
+    with open(path, "w", encoding="utf-8") as fh:
+        fh.write(new)
